@@ -26,12 +26,15 @@ import (
 	"crypto/ed25519"
 	"crypto/elliptic"
 	"crypto/rand"
+	"crypto/tls"
 	"crypto/x509"
+	"encoding/base64"
 	"encoding/hex"
 	"encoding/json"
 	"errors"
 	"fmt"
 	mrand "math/rand"
+	"net"
 	"strings"
 	"time"
 
@@ -87,6 +90,7 @@ const (
 	sfFetchWrapped = "fetch/wrapped"     // server holds the registration wrapper: acceptance = node registered and credentials issued
 	sfAuthNodeLed  = "authorize/nodeled" // unknown node: acceptance = new node record
 	sfAuthWrapped  = "authorize/wrapped" // unknown node, bundle carries wrapped registration info
+	sfListener     = "listener/nodeled"  // the request arrives in the ALPN entries of a TLS handshake at an intercepting listener (node already authorized): acceptance = the handshake completes and carries credentials
 	sfRotate       = "rotate/nodeled"    // the request travels inside a rotation request of an enrolled node: acceptance = new credentials issued
 	sfDocLifetime  = 24 * time.Hour      // documented DefaultFetchCredentialsLifetime
 	sfDocNotBefore = -5 * time.Minute    // documented default not-before skew
@@ -96,7 +100,7 @@ const (
 )
 
 var sfMutationTargets = []string{sfFetchNodeLed, sfFetchToken, sfFetchWrapped, sfAuthNodeLed, sfAuthWrapped}
-var sfWindowTargets = []string{sfFetchNodeLed, sfFetchToken, sfFetchWrapped, sfAuthNodeLed, sfRotate}
+var sfWindowTargets = []string{sfFetchNodeLed, sfFetchToken, sfFetchWrapped, sfAuthNodeLed, sfRotate, sfListener}
 
 // sfCase describes one executed case. Key material is fresh per run; the
 // descriptor says what is done to it. Bundle/Sig are filled in only for
@@ -170,14 +174,14 @@ func sfPrepare(srv *sfSrv, target string) (*sfWorld, error) {
 	s := srv.s
 	var err error
 	switch target {
-	case sfFetchNodeLed, sfAuthNodeLed:
+	case sfFetchNodeLed, sfAuthNodeLed, sfListener:
 		if w.n, err = world.NewNode(false, ""); err != nil {
 			return nil, err
 		}
 		if w.base, err = w.n.FetchRequest(); err != nil {
 			return nil, err
 		}
-		if target == sfFetchNodeLed {
+		if target == sfFetchNodeLed || target == sfListener {
 			var aerr error
 			if p, _ := engine.Guard(func() { _, aerr = registration.AuthorizeNode(s.Ctx, s.Store, sfClone(w.base), s.Opts()...) }); p != nil {
 				return nil, fmt.Errorf("%w: AuthorizeNode panicked on the unmutated request: %v", errSfHonest, p)
@@ -260,6 +264,10 @@ func (w *sfWorld) call(req *types.FetchNodeCredentialsRequest, extra ...nodeenro
 	w.srv.rec.Reset()
 	var o sfOutcome
 	o.panicV, o.stack = engine.Guard(func() {
+		if w.target == sfListener {
+			w.callThroughListener(in, &o, extra...)
+			return
+		}
 		if w.target == sfRotate {
 			ct, eerr := nodeenrollment.EncryptMessage(s.Ctx, in, w.old.Creds)
 			if eerr != nil {
@@ -284,7 +292,60 @@ func (w *sfWorld) call(req *types.FetchNodeCredentialsRequest, extra ...nodeenro
 	return o
 }
 
+// callThroughListener sends the request the way protocol.Dial does: as ALPN entries of a TLS 1.3
+// handshake at an intercepting listener configured with the options under test. Processed means:
+// the handshake completed (the server made a certificate for this request); issued: that
+// certificate carries credentials.
+func (w *sfWorld) callThroughListener(in *types.FetchNodeCredentialsRequest, o *sfOutcome, extra ...nodeenrollment.Option) {
+	s := w.srv.s
+	lw, err := world.NewLW(s, world.LWCfg{Options: s.Opts(extra...), OptionsSet: true})
+	if err != nil {
+		o.err = fmt.Errorf("harness: listener: %w", err)
+		return
+	}
+	defer lw.Close()
+	w.srv.rec.Reset()
+	now := time.Now()
+	self := world.MintSelfSigned(w.n.K, world.LeafSpec{SubjectKeyID: w.n.K.Pkix, DNSNames: []string{nodeenrollment.CommonDnsName}, NotBefore: now.Add(-5 * time.Minute), NotAfter: now.Add(5 * time.Minute), EKU: []x509.ExtKeyUsage{x509.ExtKeyUsageClientAuth}})
+	cert := &tls.Certificate{Certificate: [][]byte{self}, PrivateKey: w.n.K.Priv}
+	cfg := &tls.Config{NextProtos: world.FetchProtos(in), InsecureSkipVerify: true, MinVersion: tls.VersionTLS13,
+		GetClientCertificate: func(*tls.CertificateRequestInfo) (*tls.Certificate, error) { return cert, nil }}
+	raw, err := net.Dial("tcp", lw.Addr)
+	if err != nil {
+		o.err = fmt.Errorf("harness: dial: %w", err)
+		return
+	}
+	defer raw.Close()
+	_ = raw.SetDeadline(time.Now().Add(30 * time.Second))
+	tc := tls.Client(raw, cfg)
+	herr := tc.Handshake()
+	rec, werr := lw.Wait(raw.LocalAddr().String())
+	if werr != nil {
+		o.err = fmt.Errorf("harness: watchdog: %w", werr)
+		return
+	}
+	if rec.Panic != nil {
+		panic(fmt.Sprintf("Accept panicked: %v\n%s", rec.Panic, rec.Stack))
+	}
+	o.respNil = true
+	if herr != nil {
+		o.err = herr
+		return
+	}
+	// the handshake completed: the request went on to the authorization decision
+	o.respNil = false
+	if pcs := tc.ConnectionState().PeerCertificates; len(pcs) > 0 {
+		if b, derr := base64.RawStdEncoding.DecodeString(pcs[0].Subject.CommonName); derr == nil {
+			resp := new(types.FetchNodeCredentialsResponse)
+			o.issued = proto.Unmarshal(b, resp) == nil && len(resp.EncryptedNodeCredentials) > 0
+		}
+	}
+}
+
 func sfOpName(target string) string {
+	if target == sfListener {
+		return "the intercepting listener (fetch handshake)"
+	}
 	if target == sfRotate {
 		return "RotateNodeCredentials"
 	}
@@ -300,7 +361,7 @@ func (w *sfWorld) processed(o sfOutcome) bool {
 	if !o.issued {
 		return false
 	}
-	if sfIsFetch(w.target) || w.target == sfRotate {
+	if sfIsFetch(w.target) || w.target == sfRotate || w.target == sfListener {
 		return true
 	}
 	// authorize: the record of this node must have been written
